@@ -282,7 +282,15 @@ func (a *appGenerator) makeCodegenApp() (GenApp, error) {
 	log.Printf("planning definitions (found: %d)", len(a.Models))
 
 	genModels := make(GenDefinitions, 0, len(a.Models))
-	for mn, m := range a.Models {
+	// plan definitions in a fixed order: building one definition looks up what was already
+	// discovered about the definitions it refers to, so the result must not depend on map order
+	modelNames := make([]string, 0, len(a.Models))
+	for mn := range a.Models {
+		modelNames = append(modelNames, mn)
+	}
+	sort.Strings(modelNames)
+	for _, mn := range modelNames {
+		m := a.Models[mn]
 		model, err := makeGenDefinition(
 			mn,
 			a.ModelsPackage,
